@@ -97,7 +97,7 @@ those slots are forfeited. -/
 theorem no_refund_no_change (s : Tower) (ks : List Uuid) :
     (deleteAppointments s ks false).mem.users = s.mem.users ∧
     (deleteAppointments s ks false).db.users = s.db.users := by
-  simp [deleteAppointments, Db.removeAppts]
+  simp [deleteAppointments]
 
 /-- **refund_step**: the refund of one completed appointment adds exactly its slots to its owner
 and to nobody else. -/
